@@ -281,6 +281,11 @@ func (f *Frame) doUnOp(x *ssa.UnOp) {
 		lv := f.lvOf(x.X)
 		f.guardCheck(lv, x.Pos(), false)
 		v := f.setVal(x, f.load(lv, x.Type()))
+		if g, ok := x.X.(*ssa.Global); ok && g.Pkg != nil && g.Pkg.Pkg.Path() == "io" && g.Name() == "EOF" {
+			// assumed: nobody assigns nil to the sentinel io.EOF
+			f.enc.note("io.EOF assumed non-nil")
+			f.enc.factAbout(v, Not(Eq(App(SInt, "tag", v), Zero)))
+		}
 		f.loadFactsB(v, x.Type(), f.lvBound(lv))
 		f.dataInvFacts(v, x.Type(), lv, x.X)
 	case token.NOT:
@@ -983,16 +988,26 @@ func (f *Frame) doLookup(x *ssa.Lookup) {
 		}
 		has := f.mapHas(f.st, mt, m, k)
 		v := f.mapGet(f.st, mt, m, k)
+		// the trusted element invariant of this map type holds for the values of present keys
+		elemInv := func(val T) {
+			if cl := f.p.elemInvs[types.TypeString(mt, func(p *types.Package) string { return "" })]; cl != nil {
+				tr := &Translator{f: f, cur: f.st, old: f.st, bound: map[string]tv{"v": {val, mt.Elem()}}}
+				f.enc.factAbout(val, Implies(has, tr.boolExpr(cl.Expr)))
+				f.enc.assumed["data-structure invariant (trusted): values of "+types.TypeString(mt, nil)+": "+cl.Src] = true
+			}
+		}
 		if x.CommaOk {
 			vs := f.enc.define(f.sym(x.Name()+"_v"), v)
 			hs := f.enc.define(f.sym(x.Name()+"_ok"), has)
 			f.typeFacts(vs, mt.Elem())
 			f.loadFacts(vs, mt.Elem())
+			elemInv(vs)
 			f.tuples[x] = []T{vs, hs}
 			return
 		}
 		sym := f.setVal(x, v)
 		f.loadFacts(sym, mt.Elem())
+		elemInv(sym)
 		return
 	}
 	// string index
